@@ -313,7 +313,7 @@ static void mon_final(int info) {
 static void rt_report(const rt_range_t *r, char *addr, int t, int isw, int u, int uw, int uev, int ucol) {
     char sig[96]; long idx = (long)(addr - r->lo) / (r->esz > 0 ? r->esz : 4);
     rt_reports++; X->race_reports++;
-    snprintf(sig, sizeof sig, "C03:data-race:%s:%s-after-%s", r->name, isw ? "write" : "read", uw ? "write" : "read");
+    snprintf(sig, sizeof sig, "%s:data-race:%s:%s-after-%s", !strcmp(PROP, "C08") ? "C08" : "C03", r->name, isw ? "write" : "read", uw ? "write" : "read");     /* K16 jobs: the re-factorization reuses the L/U storage of the first call (C08) */
     mon_viol(sig, "unordered conflicting accesses to %s[%ld]: thread %d %s it (after its event kind %d, column %d) and thread %d %s it (after its event kind %d, column %d) with no happens-before edge "
              "(column flag, panel state, prune publication, lock, create/join) between the two", r->name, idx, u, uw ? "wrote" : "read", uev, ucol, t, isw ? "writes" : "reads", (int)rt_last_ev[t], (int)rt_last_col[t]);
 }
